@@ -46,6 +46,61 @@ type run struct {
 	// contract's state_lastBatchNonces[token] (PER TOKEN), and which batches' timeout height has passed
 	ext     []*extBatch
 	extLast map[[2]int]int // (chain, group) -> last executed batch nonce on the external chain
+	// amount of each fxcore-origin token (FX, externally-owned pair) circulating on each external chain: initial +
+	// executed out - deposited.  The environment cannot deposit more than that.
+	extSupply map[[2]int]*big.Int
+}
+
+func locks(g *bx.Group) bool { return g.Kind != bx.KindModule }
+
+func (r *run) supply(c, g int) *big.Int {
+	if r.extSupply[[2]int{c, g}] == nil {
+		r.extSupply[[2]int{c, g}] = new(big.Int)
+	}
+	return r.extSupply[[2]int{c, g}]
+}
+
+// envOk: the external chain holds what a deposit of these tokens sends in
+func (r *run) envOk(c int, ts []tok) bool {
+	tot := map[int]int{}
+	for _, t := range ts {
+		tot[t.g] += t.n
+	}
+	for g, n := range tot {
+		if locks(r.w.Groups[g]) && r.supply(c, g).Cmp(bi(n)) < 0 {
+			return false
+		}
+	}
+	return true
+}
+
+// inFlightAt: value of group g queued, batched or in an outgoing bridge call on chain c
+func (r *run) inFlightAt(c, g int) *big.Int {
+	sum := new(big.Int)
+	k := r.w.Keeper(c)
+	for _, tx := range k.GetUnbatchedTransactions(r.w.S.Ctx) {
+		if r.w.GroupByContract(c, tx.Token.Contract) == g {
+			sum.Add(sum, tx.Token.Amount.BigInt())
+			sum.Add(sum, tx.Fee.Amount.BigInt())
+		}
+	}
+	for _, b := range k.GetOutgoingTxBatches(r.w.S.Ctx) {
+		if r.w.GroupByContract(c, b.TokenContract) == g {
+			for _, tx := range b.Transactions {
+				sum.Add(sum, tx.Token.Amount.BigInt())
+				sum.Add(sum, tx.Fee.Amount.BigInt())
+			}
+		}
+	}
+	k.IterateOutgoingBridgeCalls(r.w.S.Ctx, func(oc *crosschaintypes.OutgoingBridgeCall) bool {
+		for _, t := range oc.Tokens {
+			if r.w.GroupByContract(c, t.Contract) == g {
+				sum.Add(sum, t.Amount.BigInt())
+			}
+		}
+		return false
+	})
+	return sum
 }
 
 type extTx struct{ id, amount, fee int }
@@ -110,6 +165,13 @@ func (r *run) extras() string {
 		for _, g := range r.w.Groups {
 			if n := r.extLast[[2]int{c, g.G}]; n != 0 {
 				p = append(p, fmt.Sprintf("xl%d.%d=%d", c, g.G, n))
+			}
+		}
+	}
+	for c := range bx.Chains {
+		for _, g := range r.w.Groups {
+			if locks(g) && r.supply(c, g.G).Sign() != 0 {
+				p = append(p, fmt.Sprintf("xs%d.%d=%s", c, g.G, r.supply(c, g.G)))
 			}
 		}
 	}
@@ -179,11 +241,18 @@ func (r *run) exec(line string, f func() string, expect map[[2]int]int, dep, wd 
 		wdCheck(res) // op-specific monitor + environment bookkeeping (external contract state)
 	}
 	if kind == "ok" {
+		c := opChain(line)
 		for _, t := range dep {
 			r.deposited[t.g].Add(r.deposited[t.g], bi(t.n))
+			if c >= 0 && locks(r.w.Groups[t.g]) {
+				r.supply(c, t.g).Sub(r.supply(c, t.g), bi(t.n))
+			}
 		}
 		for _, t := range wd {
 			r.withdrawn[t.g].Add(r.withdrawn[t.g], bi(t.n))
+			if c >= 0 && locks(r.w.Groups[t.g]) {
+				r.supply(c, t.g).Add(r.supply(c, t.g), bi(t.n))
+			}
 		}
 	}
 	r.syncExt()
@@ -240,6 +309,21 @@ func (r *run) exec(line string, f func() string, expect map[[2]int]int, dep, wd 
 			e.expired = true // report once
 		}
 	}
+	// monitor 1c: the bridge-side escrow of a locking token is exactly what is in flight on that chain plus what
+	// circulates on the external chain (so every cancel / refund / deposit finds its funds)
+	for c := range bx.Chains {
+		for _, g := range r.w.Groups {
+			if !locks(g) || !g.OnChain[c] {
+				continue
+			}
+			denom := g.Bridge[c] // FX: the base coin itself
+			have := r.w.S.App.BankKeeper.GetBalance(r.w.S.Ctx, bx.ModuleAddr(bx.Chains[c]), denom).Amount.BigInt()
+			want := new(big.Int).Add(r.inFlightAt(c, g.G), r.supply(c, g.G))
+			if have.Cmp(want) != 0 {
+				r.out.Violate(fmt.Sprintf("escrow of %s token in the %s module account is %s after %s, but in flight there + circulating outside = %s", kindName(g.Kind), bx.Chains[c], have, op, want))
+			}
+		}
+	}
 	// monitor 2: every holder's holdings change by exactly the stated delta
 	after := r.userHeld()
 	for i := 0; i <= bx.NUsers; i++ {
@@ -268,6 +352,18 @@ func (r *run) exec(line string, f func() string, expect map[[2]int]int, dep, wd 
 		}
 	}
 	return res
+}
+
+// opChain: the chain an op line is about (second word), -1 for the conversions
+func opChain(line string) int {
+	f := strings.Fields(line)
+	switch f[0] {
+	case "ccoin", "cerc", "cden":
+		return -1
+	}
+	var c int
+	fmt.Sscan(f[1], &c)
+	return c
 }
 
 func classify(res string) string {
@@ -308,6 +404,9 @@ func (r *run) deposit(c, g, u, n int, toErc bool) {
 		contractAddr = helpers.GenExternalAddr(r.chain(c))
 	}
 	r.exec(fmt.Sprintf("deposit %d %d %d %d %d", c, g, u, n, e), func() string {
+		if grp.OnChain[c] && !r.envOk(c, []tok{{g, n}}) {
+			return "err:env: the external chain does not hold these tokens"
+		}
 		return w.Atomic(func(ctx sdk.Context) error {
 			return w.Keeper(c).SendToFxExecuted(ctx, &crosschaintypes.MsgSendToFxClaim{
 				EventNonce: r.nextNonce(), BlockHeight: 1, TokenContract: contractAddr, Amount: si(n),
@@ -391,6 +490,12 @@ func (r *run) cancel(c, id, u int, pre bool, tx *poolRec) {
 	if tx != nil {
 		exp[[2]int{u, tx.g}] = tx.amount + tx.fee
 	}
+	// the sender's cancel of a transfer that is still in the pool must find the funds it queued
+	check := func(res string) {
+		if tx != nil && res != "ok" && strings.Contains(res, "insufficient") {
+			r.out.Violate(fmt.Sprintf("cancel of a queued transfer by its sender refused for lack of funds on the bridge side (%s token): value stuck in flight", kindName(w.Groups[tx.g].Kind)))
+		}
+	}
 	if pre {
 		data, err := crosschaintypes.GetABI().Pack("cancelSendToExternal", r.chain(c), bi(id))
 		if err != nil {
@@ -398,12 +503,12 @@ func (r *run) cancel(c, id, u int, pre bool, tx *poolRec) {
 		}
 		r.exec(fmt.Sprintf("xcancel %d %d %d", c, id, u), func() string {
 			return w.CallEVM(w.Users[u].Address(), crosschaintypes.GetAddress(), big.NewInt(0), data)
-		}, exp, nil, nil, nil)
+		}, exp, nil, nil, check)
 		return
 	}
 	r.exec(fmt.Sprintf("cancel %d %d %d", c, id, u), func() string {
 		return w.Msg(&crosschaintypes.MsgCancelSendToExternal{TransactionId: uint64(id), Sender: w.Users[u].AccAddress().String(), ChainName: r.chain(c)})
-	}, exp, nil, nil, nil)
+	}, exp, nil, nil, check)
 }
 
 func (r *run) incfee(c, id, u, g, n int) {
@@ -673,6 +778,9 @@ func (r *run) bcin(c, to, ref int, ts []tok, fail bool) {
 		line = fmt.Sprintf("bcin %d %d %s", c, to, tokStr(ts))
 	}
 	r.exec(line, func() string {
+		if !r.envOk(c, ts) {
+			return "err:env: the external chain does not hold these tokens"
+		}
 		return w.Atomic(func(ctx sdk.Context) error {
 			return w.Keeper(c).BridgeCallHandler(ctx, &crosschaintypes.MsgBridgeCallClaim{ChainName: r.chain(c), EventNonce: r.nextNonce(), BlockHeight: 1,
 				Sender: helpers.GenExternalAddr(r.chain(c)), Refund: hexAddr(w.Users[ref].Address()), TokenContracts: contracts, Amounts: amounts,
@@ -734,8 +842,9 @@ func (r *run) cden(g, u, rc, n, src, dst int) {
 
 // ---- generator -----------------------------------------------------------------------------------------
 
+// amount: boundary-biased (1, exactly the balance, one more than the balance), otherwise mostly affordable
 func (r *run) amount(max int) int {
-	switch r.rng.Intn(8) {
+	switch r.rng.Intn(10) {
 	case 0:
 		return 1
 	case 1:
@@ -744,6 +853,15 @@ func (r *run) amount(max int) int {
 		}
 	case 2:
 		return max + 1
+	case 3:
+		return 1 + r.rng.Intn(30)
+	}
+	if max >= 1 {
+		m := max
+		if m > 30 {
+			m = 30
+		}
+		return 1 + r.rng.Intn(m)
 	}
 	return 1 + r.rng.Intn(30)
 }
@@ -852,6 +970,10 @@ func (r *run) randomSettle() {
 			acc = append(acc, e)
 		}
 	}
+	if len(acc) == 0 && rng.Intn(4) > 0 {
+		r.randomBatch() // nothing to settle: build something instead
+		return
+	}
 	if len(acc) == 0 || rng.Intn(12) == 0 {
 		g, c := r.pickGroupChain(true)
 		r.executed(c, g, 1+rng.Intn(4))
@@ -880,6 +1002,63 @@ func (r *run) randomSettle() {
 	r.executed(e.c, e.g, e.nonce)
 }
 
+// fund gives user u base coins of group g the way its ownership kind allows: FX is held from genesis, a module-owned
+// token is deposited from the external chain, an externally-owned token is converted from the ERC-20 the user holds
+func (r *run) fund(c, g, u, n int) {
+	switch r.w.Groups[g].Kind {
+	case bx.KindModule:
+		r.deposit(c, g, u, n, false)
+	case bx.KindExternal:
+		r.cerc(g, u, u, n)
+	}
+}
+
+// holder picks a (user, group) pair, mostly one where the user holds base coins (erc = false) / ERC-20 tokens (erc = true)
+func (r *run) holder(erc bool) (int, int) {
+	rng := r.rng
+	if rng.Intn(6) > 0 {
+		var cand [][2]int
+		for u := 0; u < bx.NUsers; u++ {
+			for g := range r.w.Groups {
+				if (erc && r.ercBal(u, g) > 0) || (!erc && r.baseBal(u, g) > 0) {
+					cand = append(cand, [2]int{u, g})
+				}
+			}
+		}
+		if len(cand) > 0 {
+			p := cand[rng.Intn(len(cand))]
+			if p[1] == 0 && rng.Intn(2) == 0 { // FX is always held: do not let it dominate
+				p = cand[rng.Intn(len(cand))]
+			}
+			return p[0], p[1]
+		}
+	}
+	return rng.Intn(bx.NUsers), rng.Intn(len(r.w.Groups))
+}
+
+// chainOf picks a chain for group g: mostly one the token is bridged on
+func (r *run) chainOf(g int) int {
+	grp := r.w.Groups[g]
+	if r.rng.Intn(12) > 0 {
+		var cs []int
+		for c, ok := range grp.OnChain {
+			if ok {
+				cs = append(cs, c)
+			}
+		}
+		return cs[r.rng.Intn(len(cs))]
+	}
+	return r.rng.Intn(len(bx.Chains))
+}
+
+// fee: mostly positive (zero is rejected by ValidateBasic)
+func (r *run) fee() int {
+	if r.rng.Intn(12) == 0 {
+		return 0
+	}
+	return 1 + r.rng.Intn(3)
+}
+
 // batchScenario: several tokens of one chain get transfers and a pending batch each, then the external chain settles
 // them in an arbitrary order while senders try to cancel
 func (r *run) batchScenario() {
@@ -897,9 +1076,7 @@ func (r *run) batchScenario() {
 	}
 	for _, g := range gs {
 		u := rng.Intn(bx.NUsers)
-		if r.w.Groups[g].Kind != bx.KindFX {
-			r.deposit(c, g, u, 20+rng.Intn(20), false)
-		}
+		r.fund(c, g, u, 20+rng.Intn(20))
 		for i := 0; i < 1+rng.Intn(2); i++ {
 			r.send(c, g, u, 1+rng.Intn(6), 1+rng.Intn(3))
 		}
@@ -935,19 +1112,21 @@ func (r *run) randomOp() {
 		g, c := r.pickGroupChain(false)
 		r.deposit(c, g, u, 1+rng.Intn(40), rng.Intn(3) == 0)
 	case k < 32:
-		g, c := r.pickGroupChain(false)
-		n := r.amount(r.baseBal(u, g) - 1)
+		u, g := r.holder(false)
+		fee := r.fee()
+		n := r.amount(r.baseBal(u, g) - fee)
 		if n < 1 {
 			n = 1
 		}
-		r.send(c, g, u, n, rng.Intn(4))
+		r.send(r.chainOf(g), g, u, n, fee)
 	case k < 40:
-		g, c := r.pickGroupChain(false)
-		n := r.amount(r.ercBal(u, g) - 1)
+		u, g := r.holder(true)
+		fee := rng.Intn(3)
+		n := r.amount(r.ercBal(u, g) - fee)
 		if n < 1 {
 			n = 1
 		}
-		r.xsend(c, g, u, n, rng.Intn(4))
+		r.xsend(r.chainOf(g), g, u, n, fee)
 	case k < 48:
 		txs := r.poolTxs()
 		if len(txs) == 0 || rng.Intn(12) == 0 {
@@ -1023,7 +1202,7 @@ func TestC04(t *testing.T) {
 	for seq := 0; seq < nSeq; seq++ {
 		s := hx.NewSuite(t, 1)
 		w := bx.NewWorld(s)
-		r := &run{w: w, out: out, rng: rng, initial: w.Held(), deposited: map[int]*big.Int{}, withdrawn: map[int]*big.Int{}, extLast: map[[2]int]int{}}
+		r := &run{w: w, out: out, rng: rng, initial: w.Held(), deposited: map[int]*big.Int{}, withdrawn: map[int]*big.Int{}, extLast: map[[2]int]int{}, extSupply: map[[2]int]*big.Int{}}
 		r.relayer = helpers.NewSigner(helpers.NewEthPrivKey()).AccAddress()
 		for c := range bx.Chains {
 			w.Keeper(c).SetOracleAddrByBridgerAddr(w.S.Ctx, r.relayer, helpers.NewSigner(helpers.NewEthPrivKey()).AccAddress())
@@ -1032,7 +1211,9 @@ func TestC04(t *testing.T) {
 			r.deposited[g.G] = new(big.Int)
 			r.withdrawn[g.G] = new(big.Int)
 		}
-		out.Reset(w.S.App.BankKeeper.GetBalance(w.S.Ctx, bx.ModuleAddr("eth"), fxtypes.DefaultDenom).Amount.String())
+		m0fx := w.S.App.BankKeeper.GetBalance(w.S.Ctx, bx.ModuleAddr("eth"), fxtypes.DefaultDenom).Amount
+		r.supply(0, 0).Set(m0fx.BigInt()) // the FX locked at genesis is what circulates on Ethereum
+		out.Reset(m0fx.String())
 		if seq == 0 {
 			r.scripted()
 		} else if seq%2 == 1 {
